@@ -341,6 +341,24 @@ CORPUS = {
         "hist 3 2 ; assume 0 1 C eq E 1 1 0 -3 ; assume 1 1 C le E 1 -1 0 7 ; join 2 0 1 ; q_entails 2 C le E 1 -1 0 3 ; q_entails 2 C le E 1 -1 0 4 ; meet 2 0 1",
     ],
 }
+DEFECTS = [
+    # inclusion when the right operand knows a variable without constraints (fixed: graphdom-4)
+    "hist 2 2 ; assume 1 1 C le E 1 1 0 0 ; copy 0 1 ; assign 1 1 E 1 1 1 -10 ; q_leq 0 1 ; q_leq 1 0",
+    # meet: the bounds of one operand travel along the relations of the other (fixed: graphdom-1, graphdom-3)
+    "P 0001 hist 3 2 ; assume 1 2 C le E 1 -1 0 0 C le E 1 1 0 -5 ; assume 0 1 C eq E 2 -1 0 1 1 2 ; meet 2 0 1 ; meet 2 1 0",
+    "P 1111 hist 3 2 ; assume 1 2 C le E 1 -1 0 0 C le E 1 1 0 -5 ; assume 0 1 C eq E 2 -1 0 1 1 2 ; meet 2 0 1 ; meet 2 1 0",
+    "hist 3 2 ; assume 1 2 C le E 1 -1 0 0 C le E 1 1 0 -5 ; assume 0 1 C eq E 2 -1 0 1 1 2 ; meet 2 0 1 ; meet 2 1 0",
+    # a cycle of positive weight must not leave a self loop behind (fixed: graphdom-5)
+    "P 1100 hist 2 4 ; assume 0 1 C le E 2 -1 1 1 2 -5 ; assume 0 2 C le E 2 -1 0 1 1 -5 C le E 2 1 0 -1 2 2 ; copy 1 0 ; forget 1 3 2 3 0",
+    "hist 3 4 ; assume 2 1 C le E 2 -1 1 1 2 1 ; assume 1 1 C lt E 2 -1 1 1 2 -100 ; assume 1 1 C lt E 2 1 1 -1 3 -5 ; assume 1 2 C le E 1 -1 2 2 C le E 2 -1 2 1 3 3 ; meet 0 1 2",
+]
+CORPUS["zone"] = CORPUS["zone"] + DEFECTS
+CORPUS["oct"] = CORPUS["oct"] + [
+    # integer tightening of weights above 2^24 (fixed: graphdom-2)
+    "hist 2 2 ; assume 0 2 C le E 2 1 0 -1 1 -5 C le E 2 -1 0 1 1 -100 ; assume 0 1 C le E 2 -1 0 -1 1 268435457",
+    "hist 2 2 ; assume 0 2 C le E 2 1 0 -1 1 -5 C le E 2 -1 0 1 1 -100 ; assume 0 1 C le E 2 -1 0 -1 1 1099511627776",
+    "hist 2 2 ; assume 0 2 C le E 2 1 0 1 1 1 C eq E 2 1 0 -1 1 -1099511627776",
+]
 for _k in ("zone", "oct"):
     CORPUS[_k] = CORPUS[_k] + CORPUS["interval"]
 CORPUS["oct"] = CORPUS["oct"] + CORPUS["zone"]
@@ -355,7 +373,7 @@ def gen(seed, tier, lang, n=None, opts=None):
     # the transitive step, ties between a relation and the bounds)
     for _ in range(n // 4):
         o = dict(opts)
-        o.update(ks=KS_SMALL, maxvars=min(3, opts.get("maxvars", 5)), maxops=14, maxq=6, qprob=0.9)
+        o.update(ks=KS_SMALL, maxvars=min(3, opts.get("maxvars", 5)), minops=4, maxops=14, maxq=6, qprob=0.9)
         lines.append(gen_history(rng, lang, o))
     for _ in range(n - n // 4):
         lines.append(gen_history(rng, lang, opts))
@@ -386,9 +404,10 @@ def leqs(c):
 
 
 BUDGET = [0]
+ENUM_RADIUS = 48
 
 
-def search(cons, nvars, B, want=None):
+def search(cons, nvars, B):
     """integer point of [-B,B]^nvars satisfying every (terms,k) in cons (sum + k <= 0), by
     backtracking with pruning on fully assigned constraints; None if the box is exhausted"""
     by_last = [[] for _ in range(nvars)]
@@ -398,7 +417,7 @@ def search(cons, nvars, B, want=None):
                 return None
             continue
         by_last[max(v for _, v in terms)].append((terms, k))
-    # simple bound propagation from unary constraints to shrink the ranges
+    # unary constraints shrink the ranges
     lo = [-B] * nvars; hi = [B] * nvars
     for terms, k in cons:
         if len(terms) == 1:
@@ -428,53 +447,121 @@ def search(cons, nvars, B, want=None):
     return list(s) if go(0) else None
 
 
-class Ideal:
-    """what the property says a register must be equivalent to: bottom, or a conjunction of
-    in-language constraints over the nv program variables plus existential variables"""
-
-    def __init__(self, cons=(), nex=0, bot=False):
-        self.cons, self.nex, self.bot = list(cons), nex, bot
+def holds_all(cons, s):
+    return all(sum(a * s[v] for a, v in terms) + k <= 0 for terms, k in cons)
 
 
-def shift_ex(cons, nv, off):
-    return [([(a, v if v < nv else v + off) for a, v in terms], k) for terms, k in cons]
+def guess_point(lang, cons, nvars):
+    """candidate point for constants too large to enumerate: built with the reference closure
+    by fixing one variable after the other; the caller re-checks it by plain evaluation, so
+    nothing here is trusted"""
+    ref = Ref("oct" if lang == "oct" else "zone", nvars)
+    def norm(terms, k):
+        # merge repeated variables (x := x + k leaves x - x' forms only; be defensive)
+        d = {}
+        for a, v in terms:
+            d[v] = d.get(v, 0) + a
+        ts = [(a, v) for v, a in sorted(d.items()) if a != 0]
+        return ts, k
+    cs = []
+    for terms, k in cons:
+        ts, k = norm(terms, k)
+        if not ts:
+            if k > 0:
+                return None
+            continue
+        if any(abs(a) != 1 for a, _ in ts) or len(ts) > 2:
+            return None
+        if lang != "oct" and len(ts) == 2 and ts[0][0] == ts[1][0]:
+            return None
+        cs.append(("le", (ts, k)))
+    m = ref.add(ref.top(), cs)
+    s = [0] * nvars
+    for v in range(nvars):
+        if m is None:
+            return None
+        ub = ref.tight(m, [(1, v)]); lb = ref.tight(m, [(-1, v)])
+        x = ub if ub is not None else (-lb if lb is not None else 0)
+        s[v] = x
+        m = ref.add(m, [("eq", ([(1, v)], -x))])
+    return s if m is not None else None
 
 
-def radius(*conss):
-    return 2 + sum(abs(k) for cons in conss for _, k in cons)
+class Conj:
+    """a conjunction of constraints (terms, k): sum + k <= 0 over the nv program variables
+    and nex existential variables (indices nv ...)"""
+
+    def __init__(self, cons=(), nex=0):
+        self.cons, self.nex = list(cons), nex
+
+    def with_cons(self, cs):
+        return Conj(self.cons + list(cs), self.nex)
+
+    def hide(self, nv, x):
+        """the current value of x becomes an existential variable"""
+        old = nv + self.nex
+        return Conj([([(a, old if v == x else v) for a, v in terms], k) for terms, k in self.cons], self.nex + 1), old
+
+    def meet(self, other, nv):
+        sh = [([(a, v if v < nv else v + self.nex) for a, v in terms], k) for terms, k in other.cons]
+        return Conj(self.cons + sh, self.nex + other.nex)
 
 
-def ideal_sat(I, nv, extra=()):
-    if I.bot:
-        return None
-    cons = I.cons + list(extra)
+def radius(cons):
+    return 2 + sum(abs(k) for _, k in cons)
+
+
+def point(lang, C, nv, extra=()):
+    """(point or None, complete?) for the conjunction C plus extra constraints"""
+    cons = C.cons + list(extra)
+    n = nv + C.nex
     B = radius(cons)
-    if B > 48:
-        raise OverflowError
-    return search(cons, nv + I.nex, B)
+    if B <= ENUM_RADIUS:
+        return search(cons, n, B), True
+    s = guess_point(lang, cons, n)
+    if s is not None and holds_all(cons, s):
+        return s, False
+    return None, False
 
 
-def ideal_entails(I, nv, terms, k):
-    """does every point of I satisfy sum terms + k <= 0 ?  returns (bool, witness-or-B)"""
-    neg = ([(-a, v) for a, v in terms], -k + 1)
-    w = ideal_sat(I, nv, [neg])
-    return (w is None), (w if w is not None else radius(I.cons + [neg]))
+def neg_leq(terms, k):
+    """negation over the integers of  sum terms + k <= 0"""
+    return ([(-a, v) for a, v in terms], -k + 1)
 
 
-def ideal_tight(I, nv, terms, lim):
-    """tightest k with sum terms <= k on I, None if unbounded (I non-empty)"""
-    # unbounded iff the bound exceeds the small-model radius
-    R = radius(I.cons)
-    if not ideal_entails(I, nv, terms, -R)[0]:
-        return None
-    lo, hi = -R - 1, R          # entails(hi) true; find the least k with entails true
+def entails(lang, C, nv, terms, k):
+    """(True, radius) if exhaustively no point of C violates sum + k <= 0; (False, point) if a
+    point violates it; (None, None) if undecided"""
+    w, complete = point(lang, C, nv, [neg_leq(terms, k)])
+    if w is not None:
+        return False, w
+    if complete:
+        return True, radius(C.cons + [neg_leq(terms, k)])
+    return None, None
+
+
+def tight(lang, C, nv, terms):
+    """('fin', k) tightest k with sum terms <= k on the non-empty C, ('inf', None) if unbounded,
+    ('?', None) if undecided"""
+    R = radius(C.cons)
+    if R > ENUM_RADIUS // 2:
+        return "?", None
+    r, _ = entails(lang, C, nv, terms, -R)
+    if r is None:
+        return "?", None
+    if not r:
+        return "inf", None
+    lo, hi = -R - 1, R
     while hi - lo > 1:
         mid = (lo + hi) // 2
-        if ideal_entails(I, nv, terms, -mid)[0]:
+        r, _ = entails(lang, C, nv, terms, -mid)
+        if r is None:
+            return "?", None
+        if r:
             hi = mid
         else:
             lo = mid
-    return hi
+    return "fin", hi
 
 
 def lang_shapes(lang, nv):
@@ -484,9 +571,20 @@ def lang_shapes(lang, nv):
     return out
 
 
+class Reg:
+    """exact: Conj | 'bot' | None (unknown): what the property says the value is equivalent to.
+    under: list of Conj, each describing only stores that must be in the value."""
+
+    def __init__(self, exact, under):
+        self.exact, self.under = exact, under
+
+
+MAXDISJ = 6
+
+
 def oracle_for(lang):
     def oracle(line, ans, rng=None):
-        BUDGET[0] = 400000
+        BUDGET[0] = 300000
         try:
             return _oracle(lang, line, ans)
         except OverflowError:
@@ -502,16 +600,41 @@ def _oracle(lang, line, ans):
         toks = toks[2:]
     ops = [o.split() for o in " ".join(toks).split(" ; ")]
     nregs, nv = int(ops[0][1]), int(ops[0][2])
-    if nv > 4:
-        raise OverflowError
     answers = ans.split(" ; ")
-    regs = [Ideal() for _ in range(nregs)]
+    regs = [Reg(Conj(), [Conj()]) for _ in range(nregs)]
     ai = 0
-    def tick(n=1):
-        pass
 
     def show(s):
         return "{" + ", ".join("v%d=%d" % (i, s[i]) for i in range(nv)) + "}"
+
+    def member(R):
+        """a store that must be in the value, or None"""
+        for C in R.under:
+            w, _ = point(lang, C, nv)
+            if w is not None:
+                return w
+        return None
+
+    def empty(R):
+        """True if the value must be empty, False if it has a store, None if undecided"""
+        if R.exact == "bot":
+            return True
+        if member(R) is not None:
+            return False
+        if R.exact is None:
+            return None
+        w, complete = point(lang, R.exact, nv)
+        if w is not None:
+            return False
+        return True if complete else None
+
+    def violating(R, terms, k):
+        """a store that must be in the value and violates sum + k <= 0"""
+        for C in R.under:
+            w, _ = point(lang, C, nv, [neg_leq(terms, k)])
+            if w is not None:
+                return w
+        return None
 
     for idx, o in enumerate(ops[1:], 1):
         if not o:
@@ -522,132 +645,156 @@ def _oracle(lang, line, ans):
         where = "step %d (%s) of: %s" % (idx, " ".join(o), line)
         op = o[0]
         if op == "q_leq":
-            s, t = int(o[1]), int(o[2])
-            S, T = regs[s], regs[t]
-            tick(5)
-            # S <= T iff S is empty or T non-bottom and every constraint shape bound of T holds on S
-            if ideal_sat(S, nv) is None:
-                truth, why = True, "the left operand has no integer point"
-            elif T.bot or ideal_sat(T, nv) is None:
-                truth, why = False, "the right operand is empty, the left one contains %s" % show(ideal_sat(S, nv))
-            else:
-                truth, why = True, "every in-language constraint of the right operand holds on the left"
-                for terms in lang_shapes(lang, nv):
-                    tick(4)
-                    kt = ideal_tight(T, nv, terms, 0)
-                    if kt is None:
-                        continue
-                    ok, w = ideal_entails(S, nv, terms, -kt)
-                    if not ok:
-                        truth, why = False, "%s is in the left operand and violates %s <= %d, which holds on the right operand" % (show(w), terms, kt)
-                        break
-            if (a == "true") != truth:
-                return "%s: inclusion answered %s but %s" % (where, a, why)
+            S, T = regs[int(o[1])], regs[int(o[2])]
+            eS = empty(S)
+            if a == "false" and eS is True:
+                return "%s: inclusion answered false but the left operand has no integer point (box of radius > sum of constants exhausted)" % where
+            if a == "true" and eS is False and empty(T) is True:
+                return "%s: inclusion answered true, the right operand is empty, but store %s is in the left operand" % (where, show(member(S)))
+            if eS is not False or S.exact in (None, "bot") or T.exact in (None, "bot") or empty(T) is not False:
+                continue
+            verdict = True
+            for terms in lang_shapes(lang, nv):
+                kind, kt = tight(lang, T.exact, nv, terms)
+                if kind == "?":
+                    verdict = None
+                    break
+                if kind == "inf":
+                    continue
+                r, w = entails(lang, S.exact, nv, terms, -kt)
+                if r is None:
+                    verdict = None
+                    break
+                if not r:
+                    verdict = False
+                    if a == "true":
+                        return "%s: inclusion answered true but store %s of the left operand violates %s <= %d, which holds on the right operand" % (where, show(w), terms, kt)
+                    break
+            if verdict is True and a == "false":
+                return "%s: inclusion answered false but every in-language bound of the right operand holds on every integer point of the left operand (exhaustive search)" % where
             continue
         if op == "q_entails":
-            r = int(o[1]); c, _ = p_cst(o[2:])
-            I = regs[r]
-            tick(3)
-            if ideal_sat(I, nv) is None:
-                truth, why = True, "the value has no integer point"
-            else:
-                truth, why = True, ""
+            R = regs[int(o[1])]; c, _ = p_cst(o[2:])
+            if a == "true":
                 for terms, k in leqs(c):
-                    ok, w = ideal_entails(I, nv, terms, k)
-                    if not ok:
-                        truth, why = False, "store %s satisfies every constraint of the history and violates the queried one" % show(w)
-                        break
-                    why = "no integer point of the box of radius %d (> sum of all constants) satisfies the constraints of the history and violates the query" % w
-            if (a == "true") != truth:
-                return "%s: entails answered %s but %s" % (where, a, why)
+                    w = violating(R, terms, k)
+                    if w is not None:
+                        return "%s: entails answered true but store %s satisfies every constraint of the history and violates the queried one" % (where, show(w))
+            elif R.exact == "bot":
+                return "%s: entails answered false on a value that must be bottom" % where
+            elif R.exact is not None:
+                e = empty(R)
+                if e is True:
+                    return "%s: entails answered false but the value has no integer point" % where
+                if e is False:
+                    rs = [entails(lang, R.exact, nv, terms, k) for terms, k in leqs(c)]
+                    if all(r is True for r, _ in rs):
+                        return ("%s: entails answered false but no integer point of the box of radius %d (> sum of all constants) "
+                                "satisfies the constraints of the history and violates the query" % (where, max(w for _, w in rs)))
             continue
         r = int(o[1])
+        R = regs[r]
         if op in ("q_at", "normalize", "minimize"):
             pass
         elif op == "top":
-            regs[r] = Ideal()
+            R = Reg(Conj(), [Conj()])
         elif op == "bot":
-            regs[r] = Ideal(bot=True)
+            R = Reg("bot", [])
         elif op == "copy":
-            regs[r] = regs[int(o[2])]
+            R = regs[int(o[2])]
         elif op == "assume":
             n = int(o[2]); rest = o[3:]; cs = []
             for _ in range(n):
                 c, rest = p_cst(rest)
                 cs += leqs(c)
-            I = regs[r]
-            regs[r] = Ideal(I.cons + cs, I.nex, I.bot)
+            R = Reg(R.exact.with_cons(cs) if isinstance(R.exact, Conj) else R.exact, [C.with_cons(cs) for C in R.under])
         elif op == "assign":
-            x = int(o[2]); e, _ = p_exp(o[3:])
-            I = regs[r]
-            # x' = e(x, ...): the old x becomes an existential variable
-            old = nv + I.nex
-            ren = lambda v: old if v == x else v
-            cons = [([(a, ren(v)) for a, v in terms], k) for terms, k in I.cons]
-            terms, k = e
-            et = [(a, ren(v)) for a, v in terms]
-            cons += [([(1, x)] + [(-a, v) for a, v in et], -k), ([(-1, x)] + et, k)]
-            regs[r] = Ideal(cons, I.nex + 1, I.bot)
+            x = int(o[2]); (terms, k), _ = p_exp(o[3:])
+
+            def asg(C):
+                C2, old = C.hide(nv, x)
+                et = [(a, old if v == x else v) for a, v in terms]
+                return C2.with_cons([([(1, x)] + [(-a, v) for a, v in et], -k), ([(-1, x)] + et, k)])
+            R = Reg(asg(R.exact) if isinstance(R.exact, Conj) else R.exact, [asg(C) for C in R.under])
         elif op == "forget":
             n = int(o[2]); vs = [int(v) for v in o[3:3 + n]]
-            I = regs[r]
-            cons, nex = I.cons, I.nex
-            for x in vs:
-                old = nv + nex
-                cons = [([(a, old if v == x else v) for a, v in terms], k) for terms, k in cons]
-                nex += 1
-            regs[r] = Ideal(cons, nex, I.bot)
+
+            def fg(C):
+                for x in vs:
+                    C, _ = C.hide(nv, x)
+                return C
+            R = Reg(fg(R.exact) if isinstance(R.exact, Conj) else R.exact, [fg(C) for C in R.under])
         elif op == "meet":
             S, T = regs[int(o[2])], regs[int(o[3])]
-            regs[r] = Ideal(S.cons + shift_ex(T.cons, nv, S.nex), S.nex + T.nex, S.bot or T.bot)
+            if S.exact == "bot" or T.exact == "bot":
+                ex = "bot"
+            elif S.exact is None or T.exact is None:
+                ex = None
+            else:
+                ex = S.exact.meet(T.exact, nv)
+            R = Reg(ex, [A.meet(B, nv) for A in S.under for B in T.under][:MAXDISJ])
         elif op == "join":
             S, T = regs[int(o[2])], regs[int(o[3])]
-            tick(10)
-            if ideal_sat(S, nv) is None:
-                regs[r] = T
-            elif ideal_sat(T, nv) is None:
-                regs[r] = S
+            under = (S.under + T.under)[:MAXDISJ]
+            eS, eT = empty(S), empty(T)
+            if eS is True:
+                ex = T.exact
+            elif eT is True:
+                ex = S.exact
+            elif eS is None or eT is None or not isinstance(S.exact, Conj) or not isinstance(T.exact, Conj):
+                ex = None
             else:
                 cons = []
                 for terms in lang_shapes(lang, nv):
-                    tick(8)
-                    k1 = ideal_tight(S, nv, terms, 0)
-                    if k1 is None:
-                        continue
-                    k2 = ideal_tight(T, nv, terms, 0)
-                    if k2 is None:
-                        continue
-                    cons.append((terms, -max(k1, k2)))
-                regs[r] = Ideal(cons, 0)
+                    k1, v1 = tight(lang, S.exact, nv, terms)
+                    k2, v2 = tight(lang, T.exact, nv, terms)
+                    if k1 == "?" or k2 == "?":
+                        cons = None
+                        break
+                    if k1 == "fin" and k2 == "fin":
+                        cons.append((terms, -max(v1, v2)))
+                ex = Conj(cons) if cons is not None else None
+            R = Reg(ex, under)
         else:
             return None          # operation outside the specification
-        # check the printed state: bottom exactly when empty; at(v) = tightest bounds
-        I = regs[r]
-        tick(3)
-        w = ideal_sat(I, nv)
+        regs[r] = R
+        # the printed state: bottom exactly when empty; at(v) = the tightest bounds
         if a == "_|_":
+            w = member(R)
             if w is not None:
                 return "%s: the value is bottom but store %s satisfies every constraint of the history" % (where, show(w))
             continue
-        if w is None:
-            return "%s: the value is not bottom (%s) but no integer point of the box of radius %d (> sum of all constants) satisfies the constraints of the history" % (where, a, radius(I.cons))
+        e = empty(R)
+        if e is True:
+            return ("%s: the value is not bottom (%s) but no integer point of the box of radius > sum of all constants "
+                    "satisfies the constraints of the history" % (where, a))
         st = a[1:] if a.startswith("T") else a
         its = st.split("|")
         for v in range(nv):
             m = re.match(r"^\[(\S+), (\S+)\]$", its[v].strip())
             if not m:
                 continue
-            tick(4)
             for sgn, txt, inf in ((1, m.group(2), "+oo"), (-1, m.group(1), "-oo")):
-                kt = ideal_tight(I, nv, [(sgn, v)], 0)
-                got = None if txt == inf else sgn * int(txt)
-                if kt != got:
-                    bound = "upper" if sgn == 1 else "lower"
-                    exp = inf if kt is None else str(sgn * kt)
-                    if got is not None and (kt is None or got < kt):
-                        ok, w2 = ideal_entails(I, nv, [(sgn, v)], -got)
-                        return "%s: at(v%d) has %s bound %s but store %s satisfies every constraint of the history" % (where, v, bound, txt, show(w2))
-                    return "%s: at(v%d) has %s bound %s but the tightest bound implied by the constraints of the history is %s (exhaustive search in the box of radius %d)" % (where, v, bound, txt, exp, radius(I.cons) * 2 + 3)
+                bound = "upper" if sgn == 1 else "lower"
+                if txt != inf:
+                    w = violating(R, [(sgn, v)], -sgn * int(txt))
+                    if w is not None:
+                        return "%s: at(v%d) has %s bound %s but store %s satisfies every constraint of the history" % (where, v, bound, txt, show(w))
+                if e is False and isinstance(R.exact, Conj):
+                    kind, kt = tight(lang, R.exact, nv, [(sgn, v)])
+                    if kind == "?":
+                        continue
+                    exp = inf if kind == "inf" else str(sgn * kt)
+                    if exp != txt:
+                        return ("%s: at(v%d) has %s bound %s but the tightest bound implied by the constraints of the history is %s "
+                                "(exhaustive search over the integer points of a box of radius > sum of all constants)" % (where, v, bound, txt, exp))
+        if e is False and isinstance(R.exact, Conj):
+            kinds = [tight(lang, R.exact, nv, terms)[0] for terms in lang_shapes(lang, nv)]
+            if a.startswith("T") and "fin" in kinds:
+                return "%s: is_top() holds but the constraints of the history bound %s" % (where, lang_shapes(lang, nv)[kinds.index("fin")])
+            if not a.startswith("T") and all(k == "inf" for k in kinds):
+                return ("%s: is_top() does not hold but the constraints of the history imply no in-language constraint at all "
+                        "(every difference/sum/variable is unbounded: exhaustive search)" % where)
     return None
 
 
